@@ -11,6 +11,9 @@ NOTE = ("Trusted base: the Go type checker (go/types), go/packages loading of /r
 
 # id -> (technique, level text, design ref)
 CLAIMS = {
+ "C36": ("field-coverage of pool reset paths (SSA stores/clear calls vs struct fields) + dominance of reset after Get and clear before Put + deferred-release check of the CCF scratch buffer + who-may-write of package-level maps/slices with init-only caller chains",
+         "Structural necessary conditions: pooled objects carry no state from a previous user, pool objects are cleared before reuse and released only when no longer referenced, and process-shared tables are written only during package initialisation.",
+         "DESIGN.md §4 C36"),
  "C31": ("call-graph reachability (static calls, depth 3, gauge-argument constant propagation) from process-lifetime cache-fill regions to metering calls + purity scan of the usage constructors",
          "Structural necessary conditions: no metering with a live gauge can happen while a process-lifetime cache is filled, and metered amounts depend only on their arguments and constants.",
          "DESIGN.md §4 C31"),
